@@ -1,9 +1,10 @@
 (* C03 — the locator clauses of the boolean specification ([loc_ok], model/C03_run.v): whatever the blocks
    of the case look like (the size hint may disagree with every answer the services give, the digest table is
-   arbitrary, the scripts are arbitrary) the results of the model's run satisfy them.  No consistency
-   hypothesis is used here: the clauses speak about the locator only. *)
+   arbitrary, the scripts are arbitrary, answers with or without Content-Length) the results of the model's run
+   satisfy them.  No consistency hypothesis is used here: the clauses speak about the locator only.
+   (Model after fix F25: the reader returned by Get counts the bytes it delivers.) *)
 From Coq Require Import Arith NArith List Ascii String Bool Lia.
-From AV Require Import lib.Str model.C03_model model.C03_run proofs.C03_proofs proofs.C03_run_proofs proofs.C03_err_proofs proofs.C03_spec.
+From AV Require Import lib.Str model.C03_model model.C03_old_model model.C03_run proofs.C03_proofs proofs.C03_run_proofs proofs.C03_err_proofs proofs.C03_spec.
 Import ListNotations.
 Local Open Scope nat_scope.
 
@@ -37,18 +38,16 @@ Proof.
   destruct (blk_in_or_none b) as [X|X]; [exact X|]. rewrite X in Hr. destruct Hr.
 Qed.
 
-(* the reader of a successful Get: the announced size is the hint; when the block's 200 answers all declare a
-   length, a stream that ends cleanly has exactly the announced size *)
-Lemma stream_of_declared st b x rd size s :
+(* the reader of a successful Get: the announced size is the hint, and a stream that ends cleanly has exactly
+   the announced size — whatever the answer declared *)
+Lemma stream_len st b x rd size s :
   from_200 (oracle_at i st b) (size_hint (b_loc (blk_of i b))) x rd size s ->
   (forall n, size_hint (b_loc (blk_of i b)) = Some n -> size = n) /\
-  (declared_only (blk_of i b) = true -> s_term s = TEOF -> slen (s_bytes s) = size).
+  (s_term s = TEOF -> slen (s_bytes s) = size).
 Proof.
   intros (declared & body & cut & Eo & Est & Hd & He & _). split.
   - intros n E. symmetry. apply He. exact E.
-  - intros D T. apply declared_only_iff in D. destruct (oracle_resp_in _ _ _ _ _ _ _ _ Eo) as (row & Hr & Hin).
-    destruct declared as [m|]; [|exfalso; apply (D row 200%N body cut Hr Hin); reflexivity].
-    rewrite <- (Hd m eq_refl). subst s. apply transport_declared_len. exact T.
+  - intros T. subst s. apply (sized_eof_len _ _ T).
 Qed.
 
 (* a fetch never leaves "error = nil" in an entry *)
@@ -62,7 +61,7 @@ Proof.
 Qed.
 
 (* ------------------------------------------------------------------ the cache invariant *)
-(* for every block whose cache key is used with one locator only and whose 200 answers declare their length:
+(* for every block whose cache key is used with one size hint only (and never with an empty-block locator):
    a data entry under that key has the locator's digest and the locator's size *)
 Definition EntryLoc (bl : blockin) (d : string) : Prop :=
   H d = loc_hash (b_loc bl) /\ (forall n, size_hint (b_loc bl) = Some n -> slen d = n).
@@ -81,14 +80,14 @@ Proof.
   - pose proof (get_or_head_ok _ _ _ _ _ _ _ _ _ Eg) as F.
     assert (Hin : In (blk_of i b) (i_blocks i)).
     { destruct F as (declared & body & cut & Eo & _). eapply oracle_resp_block. exact Eo. }
-    destruct (Gall _ Hin Eh) as [El D]. apply declared_only_iff in D.
-    destruct (stream_of_declared _ _ _ _ _ _ F) as [Hs Hlen].
+    destruct (Gall _ Hin Eh) as [El _].
+    destruct (stream_len _ _ _ _ _ _ F) as [Hs Hlen].
     apply cache_ok_sound in E. destruct E as (T & Hh & Hle & ->).
-    specialize (Hlen D T). rewrite take_all by lia. unfold EntryLoc. rewrite <- El. split; [exact Hh|].
-    intros n En. rewrite Hlen. apply Hs. exact En.
+    specialize (Hlen T). rewrite take_all by lia. unfold EntryLoc. rewrite <- Eh. split; [exact Hh|].
+    intros n En. rewrite Hlen. apply Hs. rewrite El. exact En.
   - exfalso. apply get_or_head_empty in Eg.
     destruct (blk_in_or_none b) as [Hin|Hno].
-    + destruct (Gall _ Hin Eh) as [El _]. rewrite El in Eg. congruence.
+    + destruct (Gall _ Hin Eh) as [_ Ene]. congruence.
     + rewrite Hno in Eg. cbn [b_loc no_block] in Eg. rewrite empty_block_loc_nil in Eg. discriminate.
   - discriminate.
 Qed.
@@ -163,26 +162,26 @@ Proof.
   destruct (get_or_head (oracle_at i st b) (i_retries i) (b_order bl) (b_loc bl)) as [r lg] eqn:G. cbn [g_res].
   destruct r as [x rd size s| |e].
   - pose proof (get_or_head_ok _ _ _ _ _ _ _ _ _ G) as F.
-    destruct (stream_of_declared _ _ _ _ _ _ F) as [Hs Hlen]. fold bl in Hs, Hlen.
+    destruct (stream_len _ _ _ _ _ _ F) as [Hs Hlen]. fold bl in Hs, Hlen.
     unfold use_reader. fold H. fold (fresh s (loc_hash (b_loc bl))). destruct m as [|k| |].
     + destruct (hcr_read_all H (fresh s (loc_hash (b_loc bl)))) as [bb e] eqn:Er. cbn [loc_ok]. fold bl.
       destruct (empty_block_loc (b_loc bl)); [reflexivity|]. cbn [orb]. fold H. apply get_loc_ok_iff.
       assert (Hfull : FullRead MReadAll e -> bb = s_bytes s /\ s_term s = TEOF /\ H bb = loc_hash (b_loc bl)).
       { intros [[_ [->| ->]]|[X _]]; [apply (read_all_sound H _ _ _ Er)| |discriminate].
-        destruct (read_all_err i (fresh s (loc_hash (b_loc bl)))) as [X|[X|X]]; fold H in X; rewrite Er in X; discriminate. }
+        destruct (read_all_err i (fresh s (loc_hash (b_loc bl)))) as [X|[X|[X|X]]]; fold H in X; rewrite Er in X; discriminate. }
       constructor.
       * exact Hs.
       * intros Fr. apply Hfull. exact Fr.
-      * intros Fr D n En. destruct (Hfull Fr) as (-> & T & _). apply declared_only_iff in D. rewrite (Hlen D T). apply Hs. exact En.
+      * intros Fr n En. destruct (Hfull Fr) as (-> & T & _). rewrite (Hlen T). apply Hs. exact En.
       * intros k [=].
     + destruct (hcr_read_full H (fresh s (loc_hash (b_loc bl))) k) as [[bb e] r'] eqn:Er. cbn [loc_ok]. fold bl.
       destruct (empty_block_loc (b_loc bl)); [reflexivity|]. cbn [orb]. fold H. apply get_loc_ok_iff. constructor.
       * exact Hs.
       * intros [[X _]|[X _]]; discriminate.
       * intros [[X _]|[X _]]; discriminate.
-      * intros k' [= <-] -> Ecl D n En. apply declared_only_iff in D.
+      * intros k' [= <-] -> Ecl n En.
         destruct (read_full_close_sound H _ _ _ _ _ Er Ecl) as (-> & Hle & T & _).
-        rewrite (Hlen D T), (Hs n En) in Hle. split; [exact Hle|]. rewrite slen_take, (Hlen D T), (Hs n En). lia.
+        rewrite (Hlen T), (Hs n En) in Hle. split; [exact Hle|]. rewrite slen_take, (Hlen T), (Hs n En). lia.
     + destruct (hcr_write_to H (fresh s (loc_hash (b_loc bl)))) as [bb e] eqn:Er. cbn [loc_ok]. fold bl.
       destruct (empty_block_loc (b_loc bl)); [reflexivity|]. cbn [orb]. fold H. apply get_loc_ok_iff.
       assert (Hfull : FullRead MWriteTo e -> bb = s_bytes s /\ s_term s = TEOF /\ H bb = loc_hash (b_loc bl)).
@@ -190,7 +189,7 @@ Proof.
       constructor.
       * exact Hs.
       * intros Fr. apply Hfull. exact Fr.
-      * intros Fr D n En. destruct (Hfull Fr) as (-> & T & _). apply declared_only_iff in D. rewrite (Hlen D T). apply Hs. exact En.
+      * intros Fr n En. destruct (Hfull Fr) as (-> & T & _). rewrite (Hlen T). apply Hs. exact En.
       * intros k [=].
     + cbn [loc_ok]. fold bl. destruct (empty_block_loc (b_loc bl)); [reflexivity|]. cbn [orb]. apply get_loc_ok_iff. constructor.
       * exact Hs.
@@ -240,8 +239,8 @@ Proof. intros bl d _ Hl. discriminate. Qed.
 Theorem model_loc_ok : ops_loc_ok i (i_ops i) (fst (run_model i)) = true.
 Proof. unfold run_model. apply do_ops_loc. exact cache_loc_nil. Qed.
 
-(* ... and after the run every data entry of the cache, for a key used with one locator whose answers declare
-   their length, has that locator's digest and size *)
+(* ... and after the run every data entry of the cache, for a key used with one size hint only, has the
+   locator's digest and size *)
 Theorem cache_holds_locator_size bl d :
   loc_guard i bl = true -> lookup (cs_cache (snd (run_model i))) (loc_hash (b_loc bl)) = Some (EData d) ->
   H d = loc_hash (b_loc bl) /\ (forall n, size_hint (b_loc bl) = Some n -> slen d = n).
@@ -259,17 +258,16 @@ Proof.
 Qed.
 
 (* ------------------------------------------------------------------ readable consequences of loc_ok *)
-(* a ReadAll of the reader returned by Get that ended in EOF: digest, and (declared lengths) size of the locator *)
+(* a ReadAll of the reader returned by Get that ended in EOF: digest and size of the locator *)
 Lemma spec_get_readall_meaning i b size srv bytes cerr :
   empty_block_loc (b_loc (blk_of i b)) = false ->
   loc_ok i (OGet b MReadAll) (RGet ENil size srv bytes EEOF cerr) = true ->
   H_of i bytes = loc_hash (b_loc (blk_of i b)) /\
-  (forall n, size_hint (b_loc (blk_of i b)) = Some n ->
-     size = n /\ (declared_only (blk_of i b) = true -> slen bytes = n)).
+  (forall n, size_hint (b_loc (blk_of i b)) = Some n -> size = n /\ slen bytes = n).
 Proof.
   intros He Hl. apply loc_ok_reflects in Hl. cbn [LocSpec] in Hl. destruct (Hl eq_refl He) as [Hs Hh Hn _].
   assert (F : FullRead MReadAll EEOF) by (left; auto). split; [apply Hh; exact F|].
-  intros n En. split; [apply Hs; exact En|]. intros D. apply (Hn F); [apply declared_only_iff; exact D|exact En].
+  intros n En. split; [apply Hs; exact En|]. apply (Hn F). exact En.
 Qed.
 
 (* a successful cached read *)
@@ -282,7 +280,32 @@ Proof.
   destruct (Hl G eq_refl) as [Hh _]. apply Hh. exact En.
 Qed.
 
-(* ------------------------------------------------------------------ the gap: no declared length *)
+(* ------------------------------------------------------------------ every successful delivery has the expected size *)
+(* One call of getOrHead("GET"), any oracle (answers with or without Content-Length): whatever the reader delivers
+   as a success — ReadAll ending in EOF, WriteTo returning nil, Close returning nil, the block cache's fetch — has
+   exactly the announced number of bytes, which is the locator's size hint when there is one. *)
+Theorem get_delivers_hint_bytes H oracle retries order loc x rd size st lg :
+  get_or_head oracle retries order loc = {| g_res := GOk x rd size st; g_log := lg |} ->
+  (forall n, size_hint loc = Some n -> size = n) /\
+  (forall b, hcr_read_all H (fresh st (loc_hash loc)) = (b, EEOF) -> slen b = size /\ H b = loc_hash loc) /\
+  (forall b, hcr_write_to H (fresh st (loc_hash loc)) = (b, ENil) -> slen b = size /\ H b = loc_hash loc) /\
+  (hcr_close H (fresh st (loc_hash loc)) = ENil -> slen (s_bytes st) = size) /\
+  (forall k b r', hcr_read_full H (fresh st (loc_hash loc)) k = (b, ENil, r') -> hcr_close H r' = ENil -> k <= size /\ slen b = k) /\
+  (forall d, fetch_entry H loc (GOk x rd size st) = EData d -> slen d = size /\ H d = loc_hash loc).
+Proof.
+  intros G. apply get_or_head_ok in G. destruct G as (declared & body & cut & Eo & Est & Hd & He & _).
+  assert (Hlen : s_term st = TEOF -> slen (s_bytes st) = size) by (intros T; subst st; apply (sized_eof_len _ _ T)).
+  split; [intros n E; symmetry; apply He; exact E|]. split; [|split; [|split; [|split]]].
+  - intros b R. apply read_all_sound in R. destruct R as (-> & T & Hh). auto.
+  - intros b R. apply write_to_sound in R. destruct R as (-> & T & Hh). auto.
+  - intros C. apply (close_sound H (fresh st (loc_hash loc))) in C. apply Hlen. apply C.
+  - intros k b r' R C. destruct (read_full_close_sound H _ _ _ _ _ R C) as (-> & Hle & T & _).
+    rewrite (Hlen T) in Hle. split; [exact Hle|]. rewrite slen_take, (Hlen T). lia.
+  - intros d E. apply cache_ok_sound in E. destruct E as (T & Hh & Hle & ->). rewrite take_all by (rewrite (Hlen T); lia).
+    split; [apply Hlen; exact T|exact Hh].
+Qed.
+
+(* ------------------------------------------------------------------ the chunked answers of finding F25 *)
 (* One service answers 200 with a chunked body "foo" (no Content-Length).  md5("foo") is the hash of both
    locators below, but their size hints say 5 and 2. *)
 Definition ex_foo_hash : string := "acbd18db4cc2f85cedef654fccc4a4d8".
@@ -292,25 +315,41 @@ Definition ex_chunked_block (hint : string) : blockin :=
 Definition ex_chunked_in (hint : string) (o : op) : cin :=
   {| i_retries := 0; i_blocks := [ex_chunked_block hint]; i_htab := [("foo"%string, ex_foo_hash)]; i_ops := [o] |}.
 
-(* the length clauses of loc_ok do not hold without the "declared length" condition: in the model (as in the
-   code) a streaming Get for "...+5" delivers the 3 bytes "foo" with a clean EOF and a successful Close, and
-   the cache keeps the 2 bytes "fo" for "...+2" and serves them as a successful read of the whole block *)
-Lemma chunked_wrong_size_delivered :
-  (declared_only (ex_chunked_block "5") = false /\ size_hint (b_loc (ex_chunked_block "5")) = Some 5 /\
-   fst (run_model (ex_chunked_in "5" (OGet 0 MReadAll))) = [RGet ENil 5 0 "foo" EEOF ENil]) /\
-  (declared_only (ex_chunked_block "2") = false /\ size_hint (b_loc (ex_chunked_block "2")) = Some 2 /\
-   fst (run_model (ex_chunked_in "2" (OReadAt 0 8 0))) = [RRead "fo" ENil] /\
-   H_of (ex_chunked_in "2" (OReadAt 0 8 0)) "fo" <> loc_hash (b_loc (ex_chunked_block "2"))).
-Proof. split; [split; [|split]|split; [|split; [|split]]]; try (vm_compute; reflexivity). vm_compute. discriminate. Qed.
+(* after the fix: the read of "...+5" ends in the size error after the 3 bytes, the read of "...+2" after 2 bytes,
+   and the cache keeps nothing *)
+Lemma chunked_wrong_size_rejected :
+  fst (run_model (ex_chunked_in "5" (OGet 0 MReadAll))) = [RGet ENil 5 0 "foo" EBadSize EBadSize] /\
+  fst (run_model (ex_chunked_in "2" (OGet 0 MReadAll))) = [RGet ENil 2 0 "fo" EBadSize EBadSize] /\
+  fst (run_model (ex_chunked_in "5" (OReadAt 0 8 0))) = [RRead "" EBadSize] /\
+  fst (run_model (ex_chunked_in "2" (OReadAt 0 8 0))) = [RRead "" EBadSize] /\
+  fst (run_model (ex_chunked_in "3" (OReadAt 0 8 0))) = [RRead "foo" ENil].
+Proof. repeat split; vm_compute; reflexivity. Qed.
 
-Lemma length_clause_needs_declared_length :
-  ~ (forall i b size srv bytes cerr n,
-       i_ops i = [OGet b MReadAll] -> fst (run_model i) = [RGet ENil size srv bytes EEOF cerr] ->
-       size_hint (b_loc (blk_of i b)) = Some n -> slen bytes = n).
+(* before the fix (model/C03_old_model.v): the same answers were delivered as successful reads of the wrong size.
+   The statement "a ReadAll that ends in EOF delivers as many bytes as Get announced" is false of the old GET loop;
+   and the old loop's reader for "...+2" let the cache keep the first 2 bytes of the 3-byte stream. *)
+Definition ex_chunked_oracle : nat -> nat -> response := fun _ _ => Resp 200 None "foo" false.
+Definition ex_H : string -> string := tab_lookup [("foo"%string, ex_foo_hash)].
+
+Lemma old_model_chunked_wrong_size :
+  ~ (forall H oracle retries order loc x rd size st lg b,
+       old_get_or_head oracle retries order loc = {| g_res := GOk x rd size st; g_log := lg |} ->
+       hcr_read_all H (fresh st (loc_hash loc)) = (b, EEOF) -> slen b = size).
 Proof.
-  intros X. specialize (X (ex_chunked_in "5" (OGet 0 MReadAll)) 0 5 0 "foo"%string ENil 5 eq_refl).
+  intros X.
+  specialize (X ex_H ex_chunked_oracle 0 [0] (ex_foo_hash ++ "+5")%string 0 0 5 (transport None "foo" false) [(0, 0)] "foo"%string).
   assert (E : slen "foo" = 5) by (apply X; vm_compute; reflexivity). discriminate E.
 Qed.
+
+Lemma old_model_chunked_witness :
+  g_res (old_get_or_head ex_chunked_oracle 0 [0] (ex_foo_hash ++ "+5")%string) = GOk 0 0 5 (transport None "foo" false) /\
+  hcr_read_all ex_H (fresh (transport None "foo" false) ex_foo_hash) = ("foo"%string, EEOF) /\
+  fetch_entry ex_H (ex_foo_hash ++ "+2")%string (g_res (old_get_or_head ex_chunked_oracle 0 [0] (ex_foo_hash ++ "+2")%string)) = EData "fo" /\
+  (* the same calls in the model of the fixed code *)
+  g_res (get_or_head ex_chunked_oracle 0 [0] (ex_foo_hash ++ "+5")%string) = GOk 0 0 5 {| s_bytes := "foo"; s_term := TSIZE |} /\
+  hcr_read_all ex_H (fresh {| s_bytes := "foo"; s_term := TSIZE |} ex_foo_hash) = ("foo"%string, EBadSize) /\
+  fetch_entry ex_H (ex_foo_hash ++ "+2")%string (g_res (get_or_head ex_chunked_oracle 0 [0] (ex_foo_hash ++ "+2")%string)) = EErr EBadSize.
+Proof. repeat split; vm_compute; reflexivity. Qed.
 
 (* ------------------------------------------------------------------ the error class of a failed read *)
 (* one call of getOrHead, Prop-level: the error is classified by the answers to the call's own requests *)
